@@ -26,12 +26,14 @@ THEOREMS = ["C12_rows_in_order", "C12_padding_correct", "C12_dense_target", "C12
             "C12_real_enc_is_encode", "C12_dedup_distinct_positions", "C12_first_pos_at_reading",
             "C12_self_play_batches_encodable",
             "C12_source_dedup_eq", "C12_source_dedup_never_crashes", "C12_source_encode_games_eq", "C12_source_dedup_keys", "C12_source_dedup_mean", "C12_source_dedup_nodup_id", "C12_source_dedup_mask_positions", "C12_source_rows_in_order"]
-MODEL_TARGETS = ["model/Tak.vo", "model/SelfPlay.vo", "model/Batch.vo", "model/Harness.vo", "model/Lit.vo"]
+MODEL_TARGETS = ["model/Tak.vo", "model/SelfPlay.vo", "model/Batch.vo", "model/Harness.vo", "model/Lit.vo",
+                 "model/Encoding.vo"]
 TRUSTED_BASE = [
     "torch tensors as lists: torch.cat / list comprehension order, boolean-mask indexing, in-place += and /= on rows "
     "(validated by the correspondence)",
-    "encoding.encode is abstract (Section variable enc); the correspondence passes the observed table "
-    "position -> encode(position); property C06 is about that function",
+    "encoding.encode is abstract (Section variable enc), a function of the position VALUE; the correspondence passes the "
+    "table position -> encode(interned twin of the position) observed on the implementation; property C06 is about "
+    "that function",
     "float32: targets in the generated cases are dyadic so sums are exact; the division by the count is compared "
     "within 1 ulp (2^-23 relative); torch.tensor(all_values) rounding float64 -> float32 is outside the model "
     "(generated values are float32-exact)",
@@ -46,6 +48,7 @@ ASSUMPTIONS = [
 
 HEADER = """From Coq Require Import ZArith QArith Qabs List Bool.
 From TV Require Import model.Tak model.Lit model.SelfPlay model.Batch.
+From TV Require model.Encoding.
 Import ListNotations.
 Definition T := mkTr.
 Definition R := mkRow.
@@ -79,13 +82,25 @@ Definition chk_dedup (c : batch * list orow) : bool := forall2b row_matches (ded
 Definition chk_pipe (c : list (position * list Z) * list transcript * list orow) : bool :=
   let '(tbl, logs, ob) := c in
   match encode_games (enc_of tbl) logs with Some b => forall2b row_matches (dedup b) ob | None => false end.
+(* the per-position encoding instantiated with C06's model of encoding.encode (include_sentinel = True, as
+   encode_batch's default): a function of the position VALUE, whatever the process encoded before.  The observed table
+   (encode on interned twins) has to agree with it as well. *)
+Definition enc_m (p : position) : list Z := match Encoding.encode true p with Some l => l | None => [] end.
+Definition tbl_ok (tbl : list (position * list Z)) : bool :=
+  forallb (fun e => list_eqb Z.eqb (enc_m (fst e)) (snd e)) tbl.
+Definition chk_enc_m (c : list (position * list Z) * list transcript * list orow) : bool :=
+  let '(tbl, logs, ob) := c in
+  tbl_ok tbl && match encode_games enc_m logs with Some b => forall2b row_matches b ob | None => false end.
+Definition chk_pipe_m (c : list (position * list Z) * list transcript * list orow) : bool :=
+  let '(tbl, logs, ob) := c in
+  tbl_ok tbl && match encode_games enc_m logs with Some b => forall2b row_matches (dedup b) ob | None => false end.
 Definition view_rows (b : batch) :=
   map (fun r => (r_tokens r, r_mask r, sparse (map Qred (r_policy r)), Qred (r_value r), Qred (r_label r))) b.
 Definition view_enc (c : list (position * list Z) * list transcript * list orow) :=
-  let '(tbl, logs, ob) := c in option_map view_rows (encode_games (enc_of tbl) logs).
+  let '(tbl, logs, ob) := c in (tbl_ok tbl, option_map view_rows (encode_games enc_m logs)).
 Definition view_dedup (c : batch * list orow) := view_rows (dedup (fst c)).
 Definition view_pipe (c : list (position * list Z) * list transcript * list orow) :=
-  let '(tbl, logs, ob) := c in option_map (fun b => view_rows (dedup b)) (encode_games (enc_of tbl) logs)."""
+  let '(tbl, logs, ob) := c in (tbl_ok tbl, option_map (fun b => view_rows (dedup b)) (encode_games enc_m logs))."""
 CT_ENC = "list (position * list Z) * list transcript * list orow"
 CT_DEDUP = "batch * list orow"
 
@@ -152,6 +167,9 @@ def _j_orow(r):
 # --------------------------------------------------------------------------
 # transcripts
 # --------------------------------------------------------------------------
+_LAST = {"crossing": None}       # how the last list returned by _gen_logs was copied (kept for the replay input)
+
+
 def _make_transcript(rng, n, plies, dup_cands=False):
     """a Transcript over the first `plies` positions of a random real game of size n"""
     import numpy as np
@@ -204,11 +222,191 @@ def _gen_logs(rng, quick, force_repeats=False):
         tr.result = rng.choice([None, tak.Color.WHITE, tak.Color.BLACK])
         if tr.positions:
             logs.insert(rng.randint(0, len(logs)), tr)
+    _LAST["crossing"] = None
     if rng.random() < 0.4:
         # what play_many returns has crossed a multiprocessing queue: equal but not interned Piece objects
-        import pickle
-        logs = pickle.loads(pickle.dumps(logs))
+        logs = _cross(logs, "pickle")
+        _LAST["crossing"] = "pickle"
     return logs
+
+
+def _both_buried(p):
+    """some buried flat of the side to move and some of the opponent"""
+    me, own, their = p.to_move(), False, False
+    for sq in p.board:
+        for f in sq[1:]:
+            if f.color == me:
+                own = True
+            else:
+                their = True
+    return own and their
+
+
+def _buried_logs(rng, crossing):
+    """1-3 transcripts cut from slide-heavy games around positions with buried flats of both colours, then sent through
+    `crossing` ("pickle": what multiprocessing.Queue does to the transcripts play_many returns; "deepcopy")"""
+    import copy
+    import pickle
+    import numpy as np
+    import tak
+    from tak import self_play
+    logs = []
+    for _ in range(rng.choice([1, 1, 2, 3])):
+        for _try in range(20):
+            n = rng.choice([3, 4, 4, 5])
+            line, _ = _playout(rng, n, 0.35, maxlen=50)
+            ps, p = [], tak.Position.from_config(tak.Config(size=n))
+            for m in line:
+                ps.append((p, m))
+                p = p.move(m)
+            hits = [i for i, (q, _) in enumerate(ps) if _both_buried(q)]
+            if hits:
+                break
+        else:
+            continue
+        h = rng.choice(hits)
+        lo = max(0, h - rng.randint(0, 2))
+        tr = self_play.Transcript()
+        for (q, m) in ps[lo:h + 1 + rng.randint(0, 2)]:
+            cands = [mm for (mm, _) in _some_legal(q, rng, rng.randint(0, 3)) if mm != m] + [m]
+            rng.shuffle(cands)
+            tr.positions.append(q)
+            tr.moves.append(cands)
+            tr.probs.append(np.array(_dyadic_dist(rng, len(cands)), dtype=np.float32))
+            tr.values.append(rng.randint(-16, 16) / 16.0)
+        tr.result = rng.choice([None, tak.Color.WHITE, tak.Color.BLACK])
+        logs.append(tr)
+    if logs and rng.random() < 0.5:            # the same positions in a second game: the pipeline must merge them
+        src = logs[0]
+        tr = self_play.Transcript()
+        for i in range(len(src.positions)):
+            tr.positions.append(src.positions[i])
+            tr.moves.append(list(src.moves[i]))
+            tr.probs.append(np.array(_dyadic_dist(rng, len(src.moves[i])), dtype=np.float32))
+            tr.values.append(rng.randint(-16, 16) / 16.0)
+        tr.result = rng.choice([None, tak.Color.WHITE, tak.Color.BLACK])
+        logs.append(tr)
+    return _cross(logs, crossing)
+
+
+def _cross(logs, crossing):
+    import copy
+    import pickle
+    if crossing == "pickle":
+        return pickle.loads(pickle.dumps(logs))
+    if crossing == "deepcopy":
+        return copy.deepcopy(logs)
+    return logs
+
+
+def _history_logs(rng):
+    """(final transcripts, history): the transcripts as they are when encoded the SECOND time, and what they looked like
+    when they were read the first time: `first_len[g]` plies present, `old_probs[g][i]` the probabilities of ply i before
+    it was revised, how the first read happened and how a revision is written"""
+    logs = []
+    for _ in range(rng.choice([1, 1, 2])):
+        tr = _make_transcript(rng, rng.choice([3, 3, 4, 5]), rng.choice([2, 3, 4, 5]))
+        if len(tr.positions) >= 2:
+            logs.append(tr)
+    if not logs:
+        return [], None
+    hist = {"first_len": [], "old_probs": [], "first_read": rng.choice(["encode_games", "logits"]),
+            "revise": rng.choice(["replace", "inplace"])}
+    kind = rng.choice(["extend", "revise", "both"])
+    for tr in logs:
+        n = len(tr.positions)
+        hist["first_len"].append(rng.randint(1, n - 1) if kind in ("extend", "both") else n)
+        old = {}
+        if kind in ("revise", "both"):
+            i = rng.randrange(hist["first_len"][-1])
+            old[str(i)] = _dyadic_dist(rng, len(tr.moves[i]))
+        hist["old_probs"].append(old)
+    return logs, hist
+
+
+def _apply_history(final_logs, hist):
+    """build the transcripts in their FIRST state, read them once the way `hist` says, then extend / revise the SAME
+    objects the way play_one_game extends its log (append to the per-ply lists); returns those objects"""
+    import numpy as np
+    from tak import self_play
+    objs = []
+    for g, fin in enumerate(final_logs):
+        k = hist["first_len"][g]
+        tr = self_play.Transcript()
+        tr.positions = list(fin.positions[:k])
+        tr.moves = [list(ms) for ms in fin.moves[:k]]
+        tr.probs = [np.array(hist["old_probs"][g].get(str(i), fin.probs[i].tolist()), dtype=np.float32) for i in range(k)]
+        tr.values = list(fin.values[:k])
+        tr.result = fin.result
+        objs.append(tr)
+    if hist["first_read"] == "encode_games":
+        self_play.encode_games(objs)
+    else:
+        for tr in objs:
+            tr.logits
+    for g, (tr, fin) in enumerate(zip(objs, final_logs)):
+        for i_s in hist["old_probs"][g]:
+            i = int(i_s)
+            if hist["revise"] == "inplace":
+                tr.probs[i][:] = fin.probs[i]
+            else:
+                tr.probs[i] = np.array(fin.probs[i].tolist(), dtype=np.float32)
+        for i in range(hist["first_len"][g], len(fin.positions)):
+            tr.positions.append(fin.positions[i])
+            tr.moves.append(list(fin.moves[i]))
+            tr.probs.append(fin.probs[i])
+            tr.values.append(fin.values[i])
+    return objs
+
+
+def _config_logs(rng):
+    """transcripts of ONE opening line played under the stock piece counts and under a custom Config: identical boards
+    and side to move, different reserves; custom first in some lists, default first in others"""
+    import numpy as np
+    import tak
+    from tak import self_play
+    n = rng.choice([3, 4, 4, 5])
+    dflt = tak.Config(size=n)
+    caps = 1 - dflt.capstone_count
+    custom = tak.Config(size=n, pieces=rng.choice([p for p in (6, 8, 12, 17, 25, 40, 49) if p != dflt.flat_count]),
+                        capstones=caps)
+    pd, pc = tak.Position.from_config(dflt), tak.Position.from_config(custom)
+    pairs = []
+    for _ in range(rng.randint(2, 7)):
+        ms = [m for m in pd.all_moves() if m.type != tak.MoveType.PLACE_CAPSTONE]
+        rng.shuffle(ms)
+        for m in ms:
+            try:
+                qd, qc = pd.move(m), pc.move(m)
+            except tak.IllegalMove:
+                continue
+            pairs.append((pd, pc, m))
+            pd, pc = qd, qc
+            break
+        else:
+            break
+    if not pairs:
+        return [], None
+    lo = rng.randrange(len(pairs))
+    hi = min(len(pairs), lo + rng.randint(1, 4))
+
+    def mk(which):
+        tr = self_play.Transcript()
+        for (a, b, m) in pairs[lo:hi]:
+            q = a if which == 0 else b
+            cands = [mm for (mm, _) in _some_legal(q, rng, rng.randint(0, 3)) if mm != m] + [m]
+            rng.shuffle(cands)
+            tr.positions.append(q)
+            tr.moves.append(cands)
+            tr.probs.append(np.array(_dyadic_dist(rng, len(cands)), dtype=np.float32))
+            tr.values.append(rng.randint(-16, 16) / 16.0)
+        tr.result = rng.choice([None, tak.Color.WHITE, tak.Color.BLACK])
+        return tr
+    order = rng.choice(["custom-first", "default-first"])
+    logs = [mk(1), mk(0)] if order == "custom-first" else [mk(0), mk(1)]
+    if rng.random() < 0.3:
+        logs.append(mk(rng.randrange(2)))           # the same positions once more: these DO merge
+    return logs, {"order": order, "size": n, "custom": [custom.flat_count, custom.capstone_count]}
 
 
 def _c_transcript(tr):
@@ -239,7 +437,15 @@ def _mk_transcript(d):
     return tr
 
 
+def _interned(p):
+    """the same position VALUE rebuilt from interned Piece objects (Piece.cached)"""
+    return takio.mk_pos(takio.j_pos(p))
+
+
 def _enc_table(logs):
+    """the abstract per-position encoding `enc`: a function of the position VALUE.  It is observed on an interned twin
+    of each position, so that an encode that depends on object identity (positions that crossed pickle / deepcopy)
+    shows up as a difference between encode_games and the model"""
     from tak.model import encoding
     seen, items = set(), []
     for tr in logs:
@@ -247,7 +453,7 @@ def _enc_table(logs):
             key = takio.c_pos(p)
             if key not in seen:
                 seen.add(key)
-                items.append(f"({key}, {core.czlist(encoding.encode(p))})")
+                items.append(f"({key}, {core.czlist(encoding.encode(_interned(p)))})")
     return clist(items)
 
 
@@ -273,7 +479,7 @@ def _oracle_encode(logs, rows, shapes_ok):
             for j, m in enumerate(tr.moves[i]):
                 pol[encoding.encode_move(p.size, m)] = fr_of(tr.probs[i][j])
             lab = 0 if tr.result is None else (1 if p.to_move() == tr.result else -1)
-            want.append((encoding.encode(p), pol, fr_of(tr.values[i]), Fraction(lab)))
+            want.append((encoding.encode(_interned(p)), pol, fr_of(tr.values[i]), Fraction(lab)))
     if len(rows) != len(want):
         return ["rows:count"]
     w = max(len(e) for (e, _, _, _) in want)
@@ -461,18 +667,23 @@ def _crashed(e, inp):
     return None, ["crash:" + repr(e)], {"input": inp, "impl_output": [], "crash": repr(e)}
 
 
-def _encode_case(logs):
+def _encode_case(logs, crossing=None, history=None):
     from tak import self_play
+    final = logs
+    if history is not None:
+        logs = _apply_history(final, history)         # the objects that were read once and then extended / revised
     try:
         batch = self_play.encode_games(logs)
         _rows_of(batch)
     except Exception as e:  # noqa  (inside the domain nothing may raise)
-        term, clauses, rp = _crashed(e, {"logs": [_j_transcript(tr) for tr in logs]})
+        term, clauses, rp = _crashed(e, {"logs": [_j_transcript(tr) for tr in final], "crossing": crossing,
+                                         "history": history})
         return None, [], term, clauses, rp
     rows, shapes_ok = _rows_of(batch)
     term = f"({_enc_table(logs)}, {clist([_c_transcript(tr) for tr in logs])}, {clist([_c_orow(r) for r in rows])})"
     clauses = _oracle_encode(logs, rows, shapes_ok)
-    rp = {"input": {"logs": [_j_transcript(tr) for tr in logs]}, "impl_output": [_j_orow(r) for r in rows]}
+    rp = {"input": {"logs": [_j_transcript(tr) for tr in final], "crossing": crossing, "history": history},
+          "impl_output": [_j_orow(r) for r in rows]}
     return batch, rows, term, clauses, rp
 
 
@@ -487,17 +698,18 @@ def _dedup_case(rows):
     return term, clauses, rp
 
 
-def _pipe_case(logs):
+def _pipe_case(logs, crossing=None):
     from tak import self_play
     try:
         batch = self_play.encode_games(logs)
         rows, _ = _rows_of(batch)
         out, shapes_ok = _rows_of(_dedup_batch()(batch))
     except Exception as e:  # noqa
-        return _crashed(e, {"logs": [_j_transcript(tr) for tr in logs], "pipeline": True})
+        return _crashed(e, {"logs": [_j_transcript(tr) for tr in logs], "pipeline": True, "crossing": crossing})
     term = f"({_enc_table(logs)}, {clist([_c_transcript(tr) for tr in logs])}, {clist([_c_orow(r) for r in out])})"
     clauses = _oracle_dedup(_dense_rows(rows), out) + ([] if shapes_ok else ["rows:tensors-not-row-aligned"])
-    rp = {"input": {"logs": [_j_transcript(tr) for tr in logs], "pipeline": True}, "impl_output": [_j_orow(r) for r in out]}
+    rp = {"input": {"logs": [_j_transcript(tr) for tr in logs], "pipeline": True, "crossing": crossing},
+          "impl_output": [_j_orow(r) for r in out]}
     return term, clauses, rp
 
 
@@ -513,13 +725,13 @@ def correspondence(run):
     run.assumptions.append("dedup_batch obtained by: " + _dedup_cache["how"])
 
     # (a) encode_games
-    cs = core.Cases(ID, "encode_games", HEADER, CT_ENC, "chk_enc", show="view_enc", shard=19 if run.quick else 40)
+    cs = core.Cases(ID, "encode_games", HEADER, CT_ENC, "chk_enc_m", show="view_enc", shard=19 if run.quick else 40)
     items, dist = [], {}
     for _ in range(n_enc):
         logs = _gen_logs(rng, run.quick)
         if not logs:
             continue
-        _, rows, term, clauses, rp = _encode_case(logs)
+        _, rows, term, clauses, rp = _encode_case(logs, _LAST["crossing"])
         meta = {"games": len(logs), "rows": sum(len(tr.positions) for tr in logs),
                 "lengths": [len(tr.positions) for tr in logs], "sizes": [tr.positions[0].size for tr in logs]}
         if term is not None:
@@ -553,13 +765,13 @@ def correspondence(run):
             lambda m: m["distinct_keys"] < m["rows"], dist)
 
     # (c) encode_games then dedup_batch
-    cs = core.Cases(ID, "pipeline", HEADER, CT_ENC, "chk_pipe", show="view_pipe", shard=2)
+    cs = core.Cases(ID, "pipeline", HEADER, CT_ENC, "chk_pipe_m", show="view_pipe", shard=2)
     items, dist = [], {}
     for _ in range(n_pipe):
         logs = _gen_logs(rng, True, force_repeats=True)
         if not logs:
             continue
-        term, clauses, rp = _pipe_case(logs)
+        term, clauses, rp = _pipe_case(logs, _LAST["crossing"])
         nrows = sum(len(tr.positions) for tr in logs)
         meta = {"games": len(logs), "rows": nrows, "rows_after": len(rp["impl_output"])}
         if term is not None:
@@ -570,6 +782,103 @@ def correspondence(run):
             "dedup_batch(encode_games(logs)) with positions repeated across games, full policy width; compared with "
             "dedup (encode_games logs) inside Coq; non-trivial = at least one merge", lambda m: m["rows_after"] < m["rows"], dist)
 
+    # (d) transcripts that crossed a process boundary: pickle round trip (multiprocessing.Queue) / copy.deepcopy, with
+    #     buried flats of both colours in the positions; the expected rows are the model's, as in (a) and (c)
+    n_x, n_xp = (120, 16) if run.quick else (600, 80)
+    cs = core.Cases(ID, "crossing_encode", HEADER, CT_ENC, "chk_enc_m", show="view_enc", shard=8 if run.quick else 20)
+    csp = core.Cases(ID, "crossing_pipeline", HEADER, CT_ENC, "chk_pipe_m", show="view_pipe", shard=2)
+    items, itemsp, dist, distp = [], [], {}, {}
+    for j in range(n_x + n_xp):
+        crossing = "deepcopy" if j % 3 == 2 else "pickle"
+        logs = _buried_logs(rng, crossing)
+        if not logs:
+            continue
+        nb = sum(1 for tr in logs for q in tr.positions if _both_buried(q))
+        if j < n_x:
+            _, rows, term, clauses, rp = _encode_case(logs, crossing)
+            meta = {"games": len(logs), "rows": sum(len(tr.positions) for tr in logs), "crossing": crossing,
+                    "positions_with_buried_flats_of_both_colours": nb}
+            if term is not None:
+                cs.add(term, meta)
+            items.append((meta, term, clauses, rp))
+            dist[crossing] = dist.get(crossing, 0) + 1
+        else:
+            term, clauses, rp = _pipe_case(logs, crossing)
+            nrows = sum(len(tr.positions) for tr in logs)
+            meta = {"games": len(logs), "rows": nrows, "rows_after": len(rp["impl_output"]), "crossing": crossing,
+                    "positions_with_buried_flats_of_both_colours": nb}
+            if term is not None:
+                csp.add(term, meta)
+            itemsp.append((meta, term, clauses, rp))
+            distp[crossing] = distp.get(crossing, 0) + 1
+    _finish(run, cs, "crossing_encode", items,
+            "encode_games on transcript lists that went through pickle.loads(pickle.dumps(..)) (2/3) or copy.deepcopy (1/3): "
+            "Piece objects equal but not interned; positions cut around stacks with buried flats of both colours; rows "
+            "compared with the model's (enc observed on interned twins); non-trivial = some position with buried flats of "
+            "both colours", lambda m: m["positions_with_buried_flats_of_both_colours"] > 0, dist)
+    _finish(run, csp, "crossing_pipeline", itemsp,
+            "dedup_batch(encode_games(logs)) on such lists; non-trivial = some position with buried flats of both colours",
+            lambda m: m["positions_with_buried_flats_of_both_colours"] > 0, distp)
+
+    # (e) histories: a transcript is read once (encode_games or .logits), then extended with further plies and / or a
+    #     ply's probabilities are revised, then encoded AGAIN; the second batch is compared with the model's rows for the
+    #     transcript as it is then (the model is a function of the current value)
+    cs = core.Cases(ID, "history_encode", HEADER, CT_ENC, "chk_enc_m", show="view_enc", shard=5 if run.quick else 20)
+    items, dist = [], {}
+    for _ in range(40 if run.quick else 400):
+        logs, hist = _history_logs(rng)
+        if not logs:
+            continue
+        _, rows, term, clauses, rp = _encode_case(logs, None, hist)
+        ext = sum(len(tr.positions) - k for tr, k in zip(logs, hist["first_len"]))
+        rev = sum(len(o) for o in hist["old_probs"])
+        meta = {"games": len(logs), "rows": sum(len(tr.positions) for tr in logs), "plies_appended": ext,
+                "plies_revised": rev, "first_read": hist["first_read"], "revise": hist["revise"]}
+        if term is not None:
+            cs.add(term, meta)
+        items.append((meta, term, clauses, rp))
+        for k in ("extended" if ext else None, "revised-" + hist["revise"] if rev else None, "first-read-" + hist["first_read"]):
+            if k:
+                dist[k] = dist.get(k, 0) + 1
+    _finish(run, cs, "history_encode", items,
+            "encode_games on transcripts that were read before (encode_games / .logits) and then extended by further plies "
+            "(appended to the per-ply lists as play_one_game does) and / or had a ply's probabilities revised (list item "
+            "replaced, or numpy array overwritten in place); rows of the SECOND batch compared with the model's for the "
+            "current transcripts; non-trivial = every case", lambda m: True, dist)
+
+    # (f) one process, several piece-count Configs: the same opening under the stock counts and under a custom Config
+    #     (identical boards and side to move, different reserves) in one list, either order; encode and the pipeline
+    n_f, n_fp = (24, 12) if run.quick else (200, 80)
+    cs = core.Cases(ID, "configs_encode", HEADER, CT_ENC, "chk_enc_m", show="view_enc", shard=4 if run.quick else 20)
+    csp = core.Cases(ID, "configs_pipeline", HEADER, CT_ENC, "chk_pipe_m", show="view_pipe", shard=2)
+    items, itemsp, dist, distp = [], [], {}, {}
+    for j in range(n_f + n_fp):
+        logs, info = _config_logs(rng)
+        if not logs:
+            continue
+        nrows = sum(len(tr.positions) for tr in logs)
+        if j < n_f:
+            _, rows, term, clauses, rp = _encode_case(logs)
+            meta = dict(info, games=len(logs), rows=nrows)
+            if term is not None:
+                cs.add(term, meta)
+            items.append((meta, term, clauses, rp))
+            dist[info["order"]] = dist.get(info["order"], 0) + 1
+        else:
+            term, clauses, rp = _pipe_case(logs)
+            meta = dict(info, games=len(logs), rows=nrows, rows_after=len(rp["impl_output"]))
+            if term is not None:
+                csp.add(term, meta)
+            itemsp.append((meta, term, clauses, rp))
+            distp[info["order"]] = distp.get(info["order"], 0) + 1
+    _finish(run, cs, "configs_encode", items,
+            "encode_games on lists mixing games of one opening under the stock piece counts and under a custom "
+            "Config(size, pieces, capstones) (identical boards and side to move, different reserves), custom first or "
+            "default first; non-trivial = every case", lambda m: True, dist)
+    _finish(run, csp, "configs_pipeline", itemsp,
+            "dedup_batch(encode_games(logs)) on such lists: rows that differ only in the reserve tokens must NOT merge; "
+            "non-trivial = every case", lambda m: True, distp)
+
 
 def search(run, broken):
     core.setup_impl(ext=True, shims=True)
@@ -578,10 +887,29 @@ def search(run, broken):
         logs = _gen_logs(rng, True, force_repeats=rng.random() < 0.5)
         if not logs:
             continue
-        _, rows, term, clauses, rp = _encode_case(logs)
+        _, rows, term, clauses, rp = _encode_case(logs, _LAST["crossing"])
         if clauses:
             rp.update({"clause": clauses, "part": "encode_games", "oracle_violations": clauses})
             run.violation("encode_games-" + "+".join(sorted({c.split(':')[0] for c in clauses})), rp)
+            return True
+    for j in range(60):
+        crossing = "deepcopy" if j % 3 == 2 else "pickle"
+        logs = _buried_logs(rng, crossing)
+        if not logs:
+            continue
+        _, rows, term, clauses, rp = _encode_case(logs, crossing)
+        if clauses:
+            rp.update({"clause": clauses, "part": "crossing_encode", "oracle_violations": clauses})
+            run.violation("crossing_encode-" + "+".join(sorted({c.split(':')[0] for c in clauses})), rp)
+            return True
+    for _ in range(60):
+        logs, hist = _history_logs(rng)
+        if not logs:
+            continue
+        _, rows, term, clauses, rp = _encode_case(logs, None, hist)
+        if clauses:
+            rp.update({"clause": clauses, "part": "history_encode", "oracle_violations": clauses})
+            run.violation("history_encode-" + "+".join(sorted({c.split(':')[0] for c in clauses})), rp)
             return True
     for _ in range(400):
         rows, style = _gen_batch(rng, True)
@@ -602,13 +930,13 @@ def replay(run, rp):
         term, clauses, out = _dedup_case(rows)
         cs = core.Cases(ID, "replay", HEADER, CT_DEDUP, "chk_dedup", show="view_dedup", shard=1)
     else:
-        logs = [_mk_transcript(d) for d in inp["logs"]]
+        logs = _cross([_mk_transcript(d) for d in inp["logs"]], inp.get("crossing"))
         if inp.get("pipeline"):
-            term, clauses, out = _pipe_case(logs)
-            cs = core.Cases(ID, "replay", HEADER, CT_ENC, "chk_pipe", show="view_pipe", shard=1)
+            term, clauses, out = _pipe_case(logs, inp.get("crossing"))
+            cs = core.Cases(ID, "replay", HEADER, CT_ENC, "chk_pipe_m", show="view_pipe", shard=1)
         else:
-            _, _, term, clauses, out = _encode_case(logs)
-            cs = core.Cases(ID, "replay", HEADER, CT_ENC, "chk_enc", show="view_enc", shard=1)
+            _, _, term, clauses, out = _encode_case(logs, inp.get("crossing"), inp.get("history"))
+            cs = core.Cases(ID, "replay", HEADER, CT_ENC, "chk_enc_m", show="view_enc", shard=1)
     failing, shard_fail = [], []
     if term is not None:
         cs.add(term, {"replay": True})
